@@ -82,7 +82,7 @@ def run(ck):
         Rx = numpy.array([[1, 0, 0], [0, math.cos(c), -math.sin(c)], [0, math.sin(c), math.cos(c)]])
         return Rz @ Ry @ Rx
 
-    def make(nmol, energies, dips, poss, couplings, reorgs, cortimes, scale=1.0, perm=None, Q=None, dd_coupling=False, ground=0.0):
+    def make(nmol, energies, dips, poss, couplings, reorgs, cortimes, scale=1.0, perm=None, Q=None, dd_coupling=False, ground=0.0, int_positions=False):
         idx = list(range(nmol)) if perm is None else perm
         with energy_units("1/cm"):
             mols = []
@@ -93,7 +93,7 @@ def run(ck):
                 if Q is not None:
                     d, p = Q @ d, Q @ p
                 m.set_dipole(0, 1, list(d))
-                m.position = p
+                m.position = numpy.array(numpy.round(p), dtype=int) if int_positions else p
                 cf = CorrelationFunction(ta, dict(ftype="OverdampedBrownian", reorg=reorgs[k], cortime=cortimes[k], T=300, matsubara=20))
                 m.set_transition_environment((0, 1), cf)
                 mols.append(m)
@@ -115,6 +115,25 @@ def run(ck):
             calc.bootstrap(rwa=12000.0)
         return calc, calc.calculate(raw=True)
 
+    # ---- the line-shape function the reference below is built from (the package's _c2g) against an independent double time integral of the
+    # correlation function, on axes of different step ----------------------------------------------------------------------------
+    try:
+        from scipy.integrate import cumulative_trapezoid
+        for dtx in (1.0, 2.0, 0.5):
+            tax = TimeAxis(0.0, int(600 / dtx), dtx)
+            with energy_units("1/cm"):
+                cfx = CorrelationFunction(tax, dict(ftype="OverdampedBrownian", reorg=30.0, cortime=80.0, T=300, matsubara=20))
+            gp = numpy.array(absmod._c2g(tax, cfx.data))
+            cx = numpy.array(cfx.data)
+            gr = cumulative_trapezoid(cumulative_trapezoid(cx, dx=dtx, initial=0.0), dx=dtx, initial=0.0)
+            devg = float(numpy.abs(gp - gr).max() / numpy.abs(gr).max())
+            ck.resid("line-shape function g(t) vs double time integral of C(t) (step %g fs)" % dtx, devg)
+            ck.case(("lineshape-function", dtx), nontrivial=True, kind="lineshape-function", molecules=0, coupled=False)
+            if not devg <= 2e-3:
+                ck.fail("lineshape-function:step-%g" % dtx, "the line-shape function g(t) used for the spectrum is not the double time integral of the bath correlation "
+                        "function on a time axis with step %g fs (the lines then do not have the shape exp(-g(t)))" % dtx, {"step_fs": dtx, "reorg_cm": 30.0, "cortime_fs": 80.0}, devg, 2e-3)
+    except Exception as e:
+        ck.fail("raises:lineshape-function", "raised %r" % (e,), {})
     for h in range(ck.n(6, 40)):
         nmol = rng.choice([1, 2, 2, 3, 4]) if h else 2
         if h in (1, 2):
@@ -297,6 +316,12 @@ def run(ck):
                 s5 = make(nmol, energies, dips, poss, couplings, reorgs, cortimes, dd_coupling=True)
                 s6 = make(nmol, energies, dips, poss, couplings, reorgs, cortimes, dd_coupling=True, Q=Q)
                 _, a5 = spectrum(s5); _, a6 = spectrum(s6)
+                # the same geometry with the positions written as whole numbers (integer arrays)
+                _, a5i = spectrum(make(nmol, energies, dips, poss, couplings, reorgs, cortimes, dd_coupling=True, int_positions=True))
+                if numpy.abs(numpy.array(a5.data) - numpy.array(a5i.data)).max() > 1e-9 * numpy.abs(numpy.array(a5.data)).max():
+                    ck.fail("rotation:dipole-dipole:integer-positions", "spectrum with point-dipole couplings differs when the (whole-number) positions are given as "
+                            "integer arrays - after any rotation they are floats", inp,
+                            float(numpy.abs(numpy.array(a5.data) - numpy.array(a5i.data)).max() / numpy.abs(numpy.array(a5.data)).max()))
                 if numpy.abs(numpy.array(a5.data) - numpy.array(a6.data)).max() > 1e-9 * numpy.abs(numpy.array(a5.data)).max():
                     ck.fail("rotation:dipole-dipole", "spectrum with point-dipole couplings changes under a common rotation", inp)
                 # sum rule: integral of the raw spectrum proportional to the sum of squared site dipoles whatever the couplings
